@@ -155,6 +155,7 @@ partial def progOfJson (j : Json) : Except String Prog := do
   let tag ← (a[0]?.getD Json.null).getStr?
   match tag, a.size with
   | "int", 2 => return .int (← a[1]!.getInt?)
+  | "bool", 2 => return .bool (← a[1]!.getBool?)
   | "dim", 2 =>
     let s ← a[1]!.getStr?
     if !s.toList.all isAscii then throw "nonascii"
@@ -178,6 +179,7 @@ def progResJ (envs : List Env) : ProgRes → Json
   | .valueError => obj [("status", Json.str "valueerror")]
   | .val (.int n) => obj [("status", Json.str "int"), ("z", toJson n)]
   | .val .other => obj [("status", Json.str "other")]
+  | .val (.bool b) => obj [("status", Json.str "bool"), ("b", Json.bool b)]
   | .val (.dim d) => obj (dimJ envs d)
 
 def sdimOfJson (j : Json) : Except String SDim := do
@@ -279,6 +281,46 @@ def handleDim : Handler := fun m j =>
                   ("r", Json.str (if parsed.isSome then "ok" else "raised")),
                   ("tree", optJ exprToJson parsed),
                   ("vals", optJ (fun e => Json.arr (envs.map (fun env => ratJ (eval env e))).toArray) parsed)]
+  | "sym.lexu_sweep" => some do
+      -- a whole range of code points at once: the classification the caller supplies (one entry per
+      -- code point from `lo`: "s" space, "a" alpha, "n" numeric, "o" other, "d" a digit `int()`
+      -- refuses, a number = the digit's value), ASCII characters classified by the model itself;
+      -- per code point: the four decisions the tokenizer takes on that class (skip / digit run /
+      -- identifier start / identifier continuation), the digit value, `isIdentifier` of the
+      -- one-character text (ASCII only), and the model tokenizer on the probe texts
+      -- `c`, `ac`, `1c`, `c1`
+      let lo ← getNat j "lo"
+      let mut arr : Array CClass := #[]
+      for r in (← getArr j "cls") do
+        let k : CClass ← match r with
+          | Json.str "s" => pure CClass.space
+          | Json.str "a" => pure CClass.alpha
+          | Json.str "n" => pure CClass.numeric
+          | Json.str "o" => pure CClass.other
+          | Json.str "d" => pure (CClass.digit none)
+          | v => do pure (CClass.digit (some (← v.getNat?)))
+        arr := arr.push k
+      let cls : Char → CClass := fun c =>
+        if isAscii c then asciiClass c else (arr[c.toNat - lo]?).getD CClass.other
+      let tj (o : Option (List Tok)) : Json := optJ (fun ts => Json.arr (ts.map tokJ).toArray) o
+      let mut rows : Array Json := #[]
+      for i in [0:arr.size] do
+        let n := lo + i
+        if h : n.isValidChar then
+          let c : Char := Char.ofNatAux n h
+          let k := cls c
+          let dv : Json := match k with
+            | .digit (some v) => toJson v
+            | _ => Json.null
+          rows := rows.push (Json.arr #[
+            Json.bool k.isSpace, Json.bool k.isDigit, Json.bool (k.isAlpha || c == '_'),
+            Json.bool (k.isAlnum || c == '_' || c == '.'), dv,
+            (if isAscii c then Json.bool (isIdentifier [c]) else Json.null),
+            tj (tokenizeK cls [c]), tj (tokenizeK cls ['a', c]), tj (tokenizeK cls ['1', c]),
+            tj (tokenizeK cls [c, '1'])])
+        else
+          rows := rows.push Json.null
+      return obj [("rows", Json.arr rows)]
   | "sym.dimeq" => some do
       let v : Option String ← match (← j.getObjVal? "v") with
         | Json.null => pure none
